@@ -1,12 +1,125 @@
 /-
-  Props.C19 — the theorems that decide property C19 (see DESIGN.md §7).
+  Props.C19 — jpgo prints exactly the library result and signals failure by
+  exit status (DESIGN.md §7, C19; partial: process start-up, `flag`, file I/O
+  and encoding/json are the OS and the standard library — modelled in
+  Jmes/Cli.lean and Jmes/Json.lean, validated on the built binary).
 -/
 import Props.Tables
+import Jmes.Cli
 namespace Jmes.Props
-open Jmes
+open Jmes Jmes.Cli
 
 theorem C19_generated_table_ok : TableOK Generated.table = true := generated_table_ok
 theorem C19_generated_sigs_ok : SigsOK Generated.functionTable Spec.functionTable = true := generated_sigs_ok
 theorem C19_generated_lex_ok : LexTablesOK Model.lexTables Spec.lexTables = true := generated_lex_ok
+
+variable {N : Type} [NumOps N]
+
+/-- Success: a valid expression, readable valid JSON input (file or standard
+    input), a successful search: standard output is the indented JSON of
+    exactly the library's value followed by a newline, and the status is 0. -/
+theorem C19_success (cfg : Api.Config) (expr : Bytes) (input : Input) (bytes : Bytes) (ast : Node N) (doc result : Val N)
+    (hc : (Api.compile cfg expr : Res (Node N)) = .ok ast) (hi : input.data = some bytes)
+    (hd : (Json.decode bytes : Option (Val N)) = some doc) (hs : Api.search cfg expr doc = .ok result)
+    (hf : result.finite = true) :
+    run (N := N) cfg [expr] input = ⟨Json.encodeIndent 0 result ++ [0x0A], 0⟩ := by
+  simp only [run, hc, hi, hd, hs, hf, if_true]
+
+/-- Every output with a non-empty standard output is a success: status 0,
+    and the text is the serialisation of the value `Search` returned for the
+    given expression on the decoded input. -/
+theorem C19_output_is_the_library_result (cfg : Api.Config) (args : List Bytes) (input : Input)
+    (hout : (run (N := N) cfg args input).stdout ≠ []) :
+    (run (N := N) cfg args input).exit = 0 ∧
+    ∃ expr bytes doc result, args = [expr] ∧ input.data = some bytes ∧
+      (Json.decode bytes : Option (Val N)) = some doc ∧ Api.search cfg expr doc = .ok result ∧
+      (run (N := N) cfg args input).stdout = Json.encodeIndent 0 result ++ [0x0A] := by
+  unfold run at hout ⊢
+  match args with
+  | [] => simp [fail] at hout
+  | _ :: _ :: _ => simp [fail] at hout
+  | [expr] =>
+    simp only [] at hout ⊢
+    cases hc : (Api.compile cfg expr : Res (Node N)) with
+    | err e => simp [hc, fail] at hout
+    | panic p => simp [hc] at hout
+    | ok ast =>
+      simp only [hc] at hout ⊢
+      cases hi : input.data with
+      | none => simp [hi, fail] at hout
+      | some bytes =>
+        simp only [hi] at hout ⊢
+        cases hd : (Json.decode bytes : Option (Val N)) with
+        | none => simp [hd, fail] at hout
+        | some doc =>
+          simp only [hd] at hout ⊢
+          cases hs : Api.search cfg expr doc with
+          | err e => simp [hs, fail] at hout
+          | panic p => simp [hs] at hout
+          | ok result =>
+            simp only [hs] at hout ⊢
+            by_cases hf : result.finite = true
+            · simp only [hf, if_true]
+              exact ⟨trivial, expr, bytes, doc, result, rfl, rfl, hd, hs, rfl⟩
+            · simp [hf, fail] at hout
+
+/-- Failure: an invalid expression, a wrong argument count, an unreadable
+    file, invalid JSON input or an evaluation error prints nothing on standard
+    output and exits with a non-zero status. -/
+theorem C19_failure (cfg : Api.Config) (args : List Bytes) (input : Input)
+    (h : (∀ expr, args ≠ [expr]) ∨
+         (∃ expr, args = [expr] ∧ (∀ ast, (Api.compile cfg expr : Res (Node N)) ≠ .ok ast)) ∨
+         input.data = none ∨
+         (∃ bytes, input.data = some bytes ∧ (Json.decode bytes : Option (Val N)) = none) ∨
+         (∃ expr bytes doc, args = [expr] ∧ input.data = some bytes ∧
+            (Json.decode bytes : Option (Val N)) = some doc ∧ ∀ r, Api.search cfg expr doc ≠ .ok r)) :
+    (run (N := N) cfg args input).stdout = [] ∧ (run (N := N) cfg args input).exit ≠ 0 := by
+  by_cases hout : (run (N := N) cfg args input).stdout = []
+  · refine ⟨hout, ?_⟩
+    intro hex
+    -- exit 0 only happens together with a non-empty output (it ends in a newline)
+    unfold run at hout hex
+    match args with
+    | [] => simp [fail] at hex
+    | _ :: _ :: _ => simp [fail] at hex
+    | [expr] =>
+      simp only [] at hout hex
+      cases hc : (Api.compile cfg expr : Res (Node N)) with
+      | err e => simp [hc, fail] at hex
+      | panic p => simp [hc] at hex
+      | ok ast =>
+        simp only [hc] at hout hex
+        cases hi : input.data with
+        | none => simp [hi, fail] at hex
+        | some bytes =>
+          simp only [hi] at hout hex
+          cases hd : (Json.decode bytes : Option (Val N)) with
+          | none => simp [hd, fail] at hex
+          | some doc =>
+            simp only [hd] at hout hex
+            cases hs : Api.search cfg expr doc with
+            | err e => simp [hs, fail] at hex
+            | panic p => simp [hs] at hex
+            | ok result =>
+              simp only [hs] at hout hex
+              by_cases hf : result.finite = true
+              · simp [hf] at hout
+              · simp [hf, fail] at hex
+  · obtain ⟨_, expr, bytes, doc, result, ha, hi, hd, hs, _⟩ := C19_output_is_the_library_result cfg args input hout
+    rcases h with h | ⟨e, he, hc⟩ | h | ⟨bs, hb, hn⟩ | ⟨e, bs, dc, he, hb, hdd, hr⟩
+    · exact absurd ha (h expr)
+    · exfalso
+      rw [ha] at he; cases he
+      unfold Api.search at hs
+      cases hcc : (Api.compile cfg expr : Res (Node N)) with
+      | ok ast => exact hc ast hcc
+      | err er => simp [hcc] at hs
+      | panic p => simp [hcc] at hs
+    · rw [hi] at h; cases h
+    · rw [hi] at hb; cases hb; rw [hd] at hn; cases hn
+    · rw [ha] at he; cases he
+      rw [hi] at hb; cases hb
+      rw [hd] at hdd; cases hdd
+      exact absurd hs (hr result)
 
 end Jmes.Props
